@@ -3,6 +3,8 @@ sys.path.insert(0, os.path.dirname(os.path.abspath(__file__)))
 
 
 def main():
+    import faulthandler
+    faulthandler.dump_traceback_later(int(os.environ.get('VERIF_MAXTIME', '3300')), exit=True)   # never hang forever
     a = sys.argv[1:]
     if not a:
         print(__doc__ or "usage: check <Cxx> quick|thorough | <Cxx> --replay f | setup")
